@@ -377,15 +377,33 @@ def mb():
 # generators
 # --------------------------------------------------------------------------
 
+_DLT = None
+
+
+def dlt_from_suffix():
+    """does utils/uri.decide_literal_type read the kind of a literal after its last quote (C06 repair B)?"""
+    global _DLT
+    if _DLT is None:
+        import inspect
+        import shexer.utils.uri as U
+        _DLT = "suffix" in inspect.getsource(U.decide_literal_type)
+    return _DLT
+
+
 def in_domain_literal(o):
     """literals both paths read alike since the repair of C15-F1: any datatype or language tag; the lexical form has no
-    double quote, and that of a typed literal none of the prefixes decide_literal_type searches for"""
+    double quote and -- only while decide_literal_type searches the whole token -- no '^^' and, for a typed literal,
+    none of the prefixes it searches for"""
     if o[0] != "L":
         return True
-    if '"' in o[1] or "\\" in o[1] or "^^" in o[1]:
+    if '"' in o[1] or "\\" in o[1]:
+        return False
+    if dlt_from_suffix():
+        return True
+    if "^^" in o[1]:
         return False
     lang = len(o) > 3 and o[3]
-    if not lang and o[2] != STRING and any(k in o[1] for k in ("xsd:", "rdf:", "dt:", "geo:")):
+    if not lang and o[2] != STRING and any(k in o[1] + o[2] for k in ("xsd:", "rdf:", "dt:", "geo:", "@")):
         return False
     return True
 
@@ -401,6 +419,9 @@ def syntactic_domain(ts, tau):
 
 WEIRD_STRINGS = ["42", "1.5", "-7", "inf", "nan", "3.0", " 5", "http://ex.org/n0", "https://x.org/a", "x y", "_:b",
                  "[]", "<a>", "a@b", "1e3", "1_0", "é", "٣", "0x10", ".5", "5.", "+", "007", "@en"]
+
+
+SUFFIX_STRINGS = ["^^", "a^^<b>", "xsd:integer", "a dt:b", "geo:x rdf:y", "^^xsd:int"]
 
 
 def _other_schemes(ts, r):
@@ -429,8 +450,9 @@ def gen_case_graph(r, in_domain):
         if o[0] == "L":
             k = r.random()
             if k < 0.3:
-                dt = r.choice([STRING, STRING, INTEGER, XSD + "float", XSD + "date", "http://ex.org/dt"])
-                o = ("L", r.choice(WEIRD_STRINGS), dt)
+                dt = r.choice([STRING, STRING, INTEGER, XSD + "float", XSD + "date", "http://ex.org/dt"]
+                              + (["mailto:dt@ex.org", "urn:xsd:int"] if dlt_from_suffix() else []))
+                o = ("L", r.choice(WEIRD_STRINGS + (SUFFIX_STRINGS if dlt_from_suffix() else [])), dt)
             elif k < 0.5 and o[2] == INTEGER:
                 o = ("L", str(r.randint(0, 99)), INTEGER)
             elif k < 0.6 and o[2] == STRING:
